@@ -488,6 +488,11 @@ def method_call(self, recv, name, pos, kw, node, fr, star=None, dstar=None):
         c, x, y = ra.args
         return T.mk_ite(c, self.method_call(x, name, pos, kw, node, fr, star, dstar),
                         self.method_call(y, name, pos, kw, node, fr, star, dstar))
+    if ra is not None and ra.kind == 'record' and name == '_replace' and not pos and all(k_ in dict(ra.args[1]) for k_, _ in kw):
+        nv_ = dict(kw)
+        return Term.of(Atom('record', ra.args[0], tuple((f_, nv_.get(f_, v_)) for f_, v_ in ra.args[1])))
+    if ra is not None and ra.kind == 'record' and name == '_asdict' and not pos and not kw:
+        return Term.of(Atom('dict', *[(lift(f_), v_) for f_, v_ in ra.args[1]]))
     # dict / kwargs objects
     if ra is not None and ra.kind == 'dict':
         r = self._dict_method(ra, recv, name, pos, kw, node, fr)
